@@ -47,6 +47,11 @@ partial def valOf : Sexp → Option Val
       (es.mapM fun (e : Sexp) => match e with
         | Sexp.list [k, v] => do let k' ← valOf k; let v' ← valOf v; pure (k', v')
         | _ => none).map .hash
+  | .list (.atom "mh" :: es) =>
+      -- NewMutableHash + Put of every pair: a MutableHashValue is the Hash of its entries
+      (es.mapM fun (e : Sexp) => match e with
+        | Sexp.list [k, v] => do let k' ← valOf k; let v' ← valOf v; pure (k', v')
+        | _ => none).map fun (kvs : List (Val × Val)) => Val.hash (kvs.foldl (fun (acc : List (Val × Val)) (kv : Val × Val) => hashPut acc kv.1 kv.2) [])
   | .list [.atom "e", k, v] => do let k' ← valOf k; let v' ← valOf v; pure (.entry k' v')
   | .list [.atom "sens", v] => (valOf v).map .sensitive
   | .list [.atom "t", t] => (tyOf t).map .typ
